@@ -124,6 +124,29 @@ func H_C20_reconfigure() {
 	vreach("reconfigured")
 	vassert("live-watcher-iff-enabled-and-created", (live == 1) == (auto && !vShortage))
 	vCompareCaches(c, f, "after-reconfiguration")
+	if !vShortage {
+		// an absolute reference for the error report (both caches above run the same watcher code): without a shortage
+		// the files and directories in error are those a manually refreshed cache reports
+		// (plus, with auto-refresh on, an entry for every configured directory that cannot be watched because it is missing)
+		g := newCache(WithSpecDirs(dirs...), WithAutoRefresh(false))
+		ce, ge := c.GetErrors(), g.GetErrors()
+		for k := range ge {
+			_, ok := ce[k]
+			vassert("errors-of-a-manual-cache-are-reported", ok)
+		}
+		for k := range ce {
+			if _, ok := ge[k]; ok {
+				continue
+			}
+			unwatchable := false
+			for _, d := range m.dirs {
+				if d.path == k && d.state != vDirOK {
+					unwatchable = true
+				}
+			}
+			vassert("no-other-errors-than-unwatchable-directories", auto && unwatchable)
+		}
+	}
 	// a later change of the directories: both caches must keep answering alike; with no watcher (shortage)
 	// every query is answered from the current directory contents
 	if m.dirs[0].state == vDirOK {
